@@ -136,8 +136,7 @@ def rule_r1(ctx, rid="C13.R1"):
                             {"call_chain": chain})
 
 
-def rule_r2(ctx):
-    rid = "C13.R2"
+def rule_r2(ctx, rid="C13.R2"):
     ctx.r.rule(rid, "every dispatcher event method called from the poll functions is under a catch-all that calls handle_error and re-raises only the control exceptions")
     p = ctx.p
     n = 0
